@@ -1,0 +1,43 @@
+//go:build verif
+
+// Contracts for package index, checked by /verif/bin/govc (comment-only file).
+package index
+
+//@ fileprops C13
+
+// ---------------------------------------------------------------------------
+// C13: FileSystemDirectory.Persist against the ghost file system of
+// /verif/contracts/ext/os.spec
+// ---------------------------------------------------------------------------
+
+//@ field_contract FileSystemDirectory.openExclusive = github.com/blugelabs/bluge/index/lock.OpenExclusive
+//@ field_contract FileSystemDirectory.openShared = github.com/blugelabs/bluge/index/lock.OpenShared
+
+//@ spec fn itemFile(kind string, id uint64) string
+//@ spec fn pathjoin(dir string, file string) string
+
+//@ func FileSystemDirectory.fileName
+//@   trusted
+//@   pure
+//@   ensures result == itemFile(kind, id)
+
+// Any item writer: writes n bytes to the file behind w, contiguously after what it wrote before.
+//@ func WriterTo.WriteTo(recv, w, closeCh) (n, err)
+//@   interface
+//@   modifies fsLen, fsWritten, fsSynced
+//@   ensures n >= 0
+//@   ensures fsWritten == old(fsWritten)[fdPath[iref(w)] := old(fsWritten)[fdPath[iref(w)]] + n]
+//@   ensures fsLen == old(fsLen)[fdPath[iref(w)] := ite(old(fsLen)[fdPath[iref(w)]] < old(fsWritten)[fdPath[iref(w)]] + n, old(fsWritten)[fdPath[iref(w)]] + n, old(fsLen)[fdPath[iref(w)]])]
+//@   ensures fsSynced == old(fsSynced)[fdPath[iref(w)] := false]
+
+//@ func FileSystemDirectory.Persist
+//@   nopanic
+//@   requires w != nil
+//@   requires forall p string :: fsLen[p] >= 0 && !rmFailed[p]
+//@   ensures [success: file exists] result == nil ==> fsExists[pathjoin(d.path, itemFile(kind, id))]
+//@   ensures [success: file holds exactly the bytes written] result == nil ==> fsLen[pathjoin(d.path, itemFile(kind, id))] == fsWritten[pathjoin(d.path, itemFile(kind, id))]
+//@   ensures [success: synced after the last write] result == nil ==> fsSynced[pathjoin(d.path, itemFile(kind, id))]
+//@   ensures [failure: no partial file] result != nil ==> (!fsExists[pathjoin(d.path, itemFile(kind, id))] ||
+//@       (fsLen == old(fsLen) && fsWritten == old(fsWritten) && fsSynced == old(fsSynced) && old(fsExists)[pathjoin(d.path, itemFile(kind, id))]) ||
+//@       rmFailed[pathjoin(d.path, itemFile(kind, id))])
+//@   ensures [other files untouched] forall p string :: p != pathjoin(d.path, itemFile(kind, id)) ==> (fsExists[p] == old(fsExists)[p] && fsLen[p] == old(fsLen)[p])
